@@ -384,10 +384,13 @@ func storageCheck(d any, way int, st *Stats, afterStore func()) error {
 	do, _ := d.(at.Object)
 	ways := []string{"NewList", "NewListOf", "NewListFrom[]any", "NewListFrom typed", "Add", "Insert", "Replace", "list.SetTF",
 		"NewObject", "NewObjectFrom map[string]any", "NewObjectFrom typed", "Set", "object.SetTF", "nested SetTF",
-		"Replace over an equal container", "Set over an equal container", "SetTF over an equal container"}
+		"Replace over an equal container", "Set over an equal container", "SetTF over an equal container",
+		"Insert after typed reads", "Replace after typed reads", "Add after typed reads", "Set after reads", "list.SetTF after typed reads",
+		"deep object path, middle replaced", "deep list path, middle replaced"}
 	name := ways[way%len(ways)]
 	st.Count("store." + name)
 	idx, key := 1, "k"
+	var post func() error // asserted once the value has registered itself
 	switch name {
 	case "NewList":
 		hostL = at.NewList("x", d, 3)
@@ -430,6 +433,63 @@ func storageCheck(d any, way int, st *Stats, afterStore func()) error {
 		hostO = at.NewObject("a", 1, "k", cloneOf(d)).Set("k", d)
 	case "SetTF over an equal container":
 		hostO = at.NewObject("a", 1, "k", cloneOf(d)).SetTF(".k", d)
+	case "Insert after typed reads":
+		// the host has answered every kind of read before the derived value arrives (whatever it remembers
+		// from those reads is out of date now); a plain container of the same kind stands before the slot
+		hostL = at.NewList(cloneOf(d), "y")
+		warmList(hostL)
+		hostL.Insert(1, d)
+	case "Replace after typed reads":
+		hostL = at.NewList(cloneOf(d), "y", "z")
+		warmList(hostL)
+		hostL.Replace(1, d)
+	case "Add after typed reads":
+		hostL = at.NewList(cloneOf(d))
+		warmList(hostL)
+		hostL.Add(d)
+	case "list.SetTF after typed reads":
+		hostL = at.NewList(cloneOf(d), "y")
+		warmList(hostL)
+		hostL.SetTF("#1", d)
+	case "Set after reads":
+		hostO = at.NewObject("a", 1)
+		warmObject(hostO)
+		hostO.Set("k", d)
+	case "deep object path, middle replaced":
+		// a path of three links is read, then the container in the middle is replaced through its parent's own
+		// handle, then the path is read again
+		root := at.NewObject("house", at.NewObject("yard", at.NewObject("k", cloneOf(d), "a", 1)))
+		for i := 0; i < 2; i++ {
+			if root.GetTF(".house.yard.k") == d || root.TypeOfTF(".house.yard.k") == at.TypeUndefined {
+				return errf("deep path read before the derived value was stored is wrong")
+			}
+		}
+		hostO = at.NewObject("a", 1, "k", d)
+		root.GetObject("house").Set("yard", hostO)
+		post = func() error {
+			if got := root.GetTF(".house.yard.k"); got != d {
+				return errf("GetTF(.house.yard.k) after the container in the middle of the path was replaced hands back %T %p instead of the derived value %T %p stored there", got, got, d, d)
+			}
+			if got := root.GetTF(".house.yard"); got != hostO {
+				return errf("GetTF(.house.yard) does not hand back the container that replaced the former one")
+			}
+			return nil
+		}
+	case "deep list path, middle replaced":
+		root := at.NewList(at.NewList(at.NewList("x", cloneOf(d))))
+		for i := 0; i < 2; i++ {
+			if root.GetTF("#0#0#1") == d || root.TypeOfTF("#0#0#1") == at.TypeUndefined {
+				return errf("deep path read before the derived value was stored is wrong")
+			}
+		}
+		hostL = at.NewList("x", d)
+		root.GetList(0).Replace(0, hostL)
+		post = func() error {
+			if got := root.GetTF("#0#0#1"); got != d {
+				return errf("GetTF(#0#0#1) after the container in the middle of the path was replaced hands back %T %p instead of the derived value %T %p stored there", got, got, d, d)
+			}
+			return nil
+		}
 	case "nested SetTF":
 		hostO = at.NewObject().SetTF(".a#1", d)
 		hostL, idx = hostO.GetList("a"), 1
@@ -437,6 +497,11 @@ func storageCheck(d any, way int, st *Stats, afterStore func()) error {
 	}
 	if afterStore != nil {
 		afterStore()
+	}
+	if post != nil {
+		if err := post(); err != nil {
+			return err
+		}
 	}
 	same := func(what string, got any) error {
 		if got != d {
@@ -692,6 +757,53 @@ func storageCheck(d any, way int, st *Stats, afterStore func()) error {
 		}
 	}
 	return nil
+}
+
+// warmList / warmObject: every kind of read on a host before something is stored in it.
+func warmList(l at.List) {
+	l.ObjectSlice()
+	l.ListSlice()
+	l.Slice()
+	l.ForEachObject(func(at.Object) {})
+	l.ForEachList(func(at.List) {})
+	l.FilterObjects(func(at.Object) bool { return true })
+	l.FilterLists(func(at.List) bool { return true })
+	l.MapObjects(func(x at.Object) any { return nil })
+	l.MapLists(func(x at.List) any { return nil })
+	l.ForEach(func(int, any) {})
+	_ = l.String()
+	l.AllObjects()
+	l.AllLists()
+	l.Contains("y")
+	l.IndexOf("y")
+	for i := 0; i < l.Count(); i++ {
+		l.Get(i)
+		l.TypeOf(i)
+		l.TypeOfTF(fmt.Sprintf("#%d", i))
+		l.TypeOfTF(fmt.Sprintf("#%d.wt", i))
+		l.TypeOfTF(fmt.Sprintf("#%d#0", i))
+	}
+	l.TypeOfTF(fmt.Sprintf("#%d", l.Count()))
+}
+
+func warmObject(o at.Object) {
+	o.Keys()
+	o.Values()
+	o.Dict()
+	o.ForEachObject(func(at.Object) {})
+	o.ForEachList(func(at.List) {})
+	o.MapObjects(func(x at.Object) any { return nil })
+	o.MapLists(func(x at.List) any { return nil })
+	o.ForEach(func(string, any) {})
+	_ = o.String()
+	o.Contains("y")
+	o.KeyExists("k")
+	o.TypeOf("k")
+	o.TypeOfTF(".k")
+	o.TypeOfTF(".k.wt")
+	o.TypeOfTF(".k#0")
+	o.TypeOfTF(".a")
+	o.Get("a")
 }
 
 var c19Reported bool
